@@ -57,7 +57,10 @@ RULE = ("a handshake that FAILS although a session was offered is accepted only 
         "none/trusted/forged-issuer, cache capacity 1..3, 1..4 cache keys; X: every byte position and every truncation length of a GMSSL-CBC "
         "ticket replayed end to end, every 5th position and every 7th truncation for TLS 1.2, TLS 1.0, auto-switch GM/TLS 1.2/TLS 1.1 tickets plus random samples; S: all 255 values at every position and all "
         "truncations through decryptTicket; T/M/U/L: white-box gate, codec (lengths 0..65535, huge length fields, truncations) and LRU op "
-        "sequences. Non-trivial = history with >= 2 connections, or any X/T/S/U/M/L case with non-empty input; distinct = distinct case text")
+        "sequences; B: keysFromMasterSecret evaluated twice in a row for one master secret (the original connection's hello randoms, then "
+        "fresh ones - both, only the server's, only the client's) for 11 version/suite pairs (GMSSL CBC/GCM, TLS 1.0/1.1 CBC, TLS 1.2 SHA-256 "
+        "and SHA-384 suites, ChaCha20) x 3: each block must be PRF(master, 'key expansion', server_random + client_random) of ITS randoms "
+        "(python, hashlib; for GMSSL also the extracted key derivation over HMAC-SM3). Non-trivial = history with >= 2 connections, or any X/T/S/U/M/L/B case with non-empty input; distinct = distinct case text")
 
 GOOD = ("R", "F", "E")
 
@@ -240,11 +243,41 @@ def _pred_history(f, io):
     return True, ""
 
 
+_C06 = []
+
+
+def _c06():
+    """the PRFs (P_SM3, P_SHA256/384, MD5-SHA1) written out in checks/c06.py over hashlib's hash functions"""
+    if not _C06:
+        import importlib.util, os
+        spec = importlib.util.spec_from_file_location("checks.c06_prf", os.path.join(os.path.dirname(os.path.abspath(__file__)), "c06.py"))
+        m = importlib.util.module_from_spec(spec)
+        spec.loader.exec_module(m)
+        _C06.append(m)
+    return _C06[0]
+
+
 def predicate(f, io):
     """the property, evaluated on what /repo did (independent of the Coq model)"""
     if not io or io[0] in ("PANIC", "HANG", "BADCASE") or io[0].startswith("RUNNER"):
         return False, "implementation " + (io[0] if io else "gave no result")
     op = f[0]
+    if op == "B":
+        # a resumed connection is keyed as after a full handshake: key_block = PRF(master_secret, "key expansion",
+        # server_random + client_random) with the hello randoms of THAT connection (RFC 5246 6.3, RFC 2246 6.3, GM/T 0024)
+        if io[0] != "ok" or len(io) < 6:
+            return False, "key block not produced: " + " ".join(io)[:120]
+        prf = _c06()._prf
+        vers, suite, ms = int(f[2], 16), int(f[3], 16), _unhex(f[4])
+        n = 2 * (int(io[1]) + int(io[2]) + int(io[3]))
+        for which, cr, sr, got in (("original", f[5], f[6], io[4]), ("resumed", f[7], f[8], io[5])):
+            want = prf(vers, suite, ms, b"key expansion", _unhex(sr) + _unhex(cr), n)
+            if _unhex(got) != want:
+                return False, ("keysFromMasterSecret for the %s connection (version %04x suite %04x): key block %s... is not PRF(master secret, "
+                               "'key expansion', server_random + client_random) = %s... of this connection's hello randoms%s"
+                               % (which, vers, suite, got[:16], want[:8].hex(),
+                                  " - it is the ORIGINAL connection's key block" if which == "resumed" and got == io[4] else ""))
+        return True, ""
     if op == "M":
         vers, suite, ms, certs = int(f[2], 16), int(f[3], 16), _unhex(f[4]), _unhexlist(f[5])
         want = struct.pack(">HHH", vers, suite, len(ms) & 0xffff) + ms + struct.pack(">H", len(certs) & 0xffff)
